@@ -101,6 +101,7 @@ package deneb
 //@     invariant ctx_t >= old(ctx_t) && (old(ctx_seen) || !ctx_seen)
 //@     invariant ctx_t > old(ctx_t) ==> !ctx_cancelled(ctx, old(ctx_t))
 //@   assigns ghost(n_eng_notify), ghost(n_set_exec_header)
+//@   opt rangeindex=on
 //@   ensures asked: err == nil ==> n_eng_notify == old(n_eng_notify) + 1
 //@   ensures approved: err == nil ==> (exists root RootT :: !eng_hash_err_deneb(engine, old(body.ExecutionPayload), root) && eng_hash_ok_deneb(engine, old(body.ExecutionPayload), root) && !eng_notify_err_deneb(engine, old(body.ExecutionPayload), root) && eng_notify_valid_deneb(engine, old(body.ExecutionPayload), root))
 //@   ensures hashes: err == nil ==> (exists hs HashesT :: {eng_vh_ok_deneb(engine, old(body.ExecutionPayload), hs)} !eng_vh_err_deneb(engine, old(body.ExecutionPayload), hs) && eng_vh_ok_deneb(engine, old(body.ExecutionPayload), hs) && len(hs) == old(len(body.BlobKZGCommitments)) && (forall i :: {hs[i]} 0 <= i && i < len(hs) ==> hs[i] == kzg_vhash(old(body.BlobKZGCommitments[i]))))
